@@ -329,7 +329,21 @@ var c17RoundCases = []struct {
 // the scaling by a power of ten is native), and the other numeric filters on integers,
 // numeric strings and negative operands.
 func VerifC17RoundPlaces() {
-	switch nd.Choice(3) {
+	switch nd.Choice(4) {
+	case 3:
+		// exact whenever operand and result are representable: whole numbers up to 2^53 at any number of
+		// places, halves next to 2^52, tens of large integers
+		c := []struct {
+			x      float64
+			places int
+			want   float64
+		}{
+			{9007199254740991, 1, 9007199254740991}, {9007199254740989, 2, 9007199254740989}, {-9007199254740991, 4, -9007199254740991},
+			{9007199254740988, 1, 9007199254740988}, {4503599627370495.5, 1, 4503599627370495.5}, {9007199254740984, -1, 9007199254740980},
+			{9007199254740975, -1, 9007199254740980}, {-9007199254740985, -1, -9007199254740980}, {4503599627370497, 3, 4503599627370497},
+		}[nd.Choice(9)]
+		v, err := fEval("x | round: p", map[string]any{"x": c.x, "p": c.places})
+		nd.Assert(err == nil && v.(float64) == c.want, "round-exact-on-representable")
 	case 0:
 		c := c17RoundCases[nd.Choice(len(c17RoundCases))]
 		v, err := fEval("x | round: p", map[string]any{"x": c.x, "p": c.places})
